@@ -86,16 +86,6 @@ def Re.noTextAnchor : Re → Bool
 /-- empty, or beginning with a line feed: what may follow a line (and, reversed, precede it) -/
 def LFish (l : Bytes) : Prop := l = [] ∨ ∃ t, l = LF :: t
 
-/-- the regex contains no repetition (`*`, `+`) -/
-def Re.starFree : Re → Bool
-  | .cat a b => a.starFree && b.starFree
-  | .alt a b => a.starFree && b.starFree
-  | .star _ _ => false
-  | .plus _ _ => false
-  | .quest r _ => r.starFree
-  | .group _ r => r.starFree
-  | _ => true
-
 /-- Fuel that suffices for the engine on `re` with `n` bytes of input left: the engine spends one
 unit of fuel per nesting level of the regex tree, and one per star iteration (each iteration must
 consume at least one byte). -/
